@@ -362,6 +362,11 @@ bool Directory::unlink(const String& dir, bool recursive)
     }
     const char* const str = dent->d_name;
     bool isDir = dent->d_type == DT_DIR;
+    if(dent->d_type == DT_UNKNOWN)
+    {
+      struct stat buff;
+      isDir = lstat(prefix + String(str, String::length(str)), &buff) == 0 && S_ISDIR(buff.st_mode);
+    }
     if(isDir && *str == '.' && (str[1] == '\0' || (str[1] == '.' && str[2] == '\0')))
       continue;
     if(isDir)
